@@ -116,4 +116,63 @@ theorem response_code_is_toWire (e : Jrpc.Errors.Err) (id : List UInt8) (dl : In
     generalize Jrpc.Errors.errorCode _ = c
     by_cases hc : c = Jrpc.Errors.NoError <;> simp [hc]
 
+/-! ### Server.filterBatchLocked -/
+
+/-- **the loop body of `filterBatchLocked` of the current source**: requests and notifications are
+kept whatever their id; a reply goes to the callback pending under its *normalised* id, whose
+entry is removed first; with no such callback it is dropped on a push-enabled server when it is
+reply-shaped, and kept (to be answered as an error) otherwise -/
+theorem filter_matches (isReq allowP : Bool) (rawID m r : List UInt8) (e : Option Unit) (has : List UInt8 → Bool) :
+    Funcs.filterAct isReq rawID m e r allowP has =
+      (if isReq then .keep
+       else if has (Wire.fixID rawID) then .deliver (Wire.fixID rawID) true
+       else if allowP && m == [] && (e.isSome || r != []) then .drop
+       else .keep) := by
+  unfold Funcs.filterAct
+  rw [Jrpc.Tie.C02.fixID_matches]
+  cases isReq <;> cases allowP <;> cases h : has (Wire.fixID rawID) <;> cases e <;> cases m <;> cases r <;>
+    simp [h, GoNil.isNil]
+
+/-- a request is never taken for the reply to a callback, even when it carries the id of one -/
+theorem request_never_consumed (allowP : Bool) (rawID m r : List UInt8) (e : Option Unit) (has : List UInt8 → Bool) :
+    Funcs.filterAct true rawID m e r allowP has = .keep := by
+  rw [filter_matches]; rfl
+
+/-- with no callback pending under its id, what happens to a member is the wire model's `keepMember` -/
+theorem filter_is_keepMember (cfg : Cfg) (j : Msg) (has : List UInt8 → Bool) (hno : has (Wire.fixID j.id) = false) :
+    Funcs.filterAct j.isRequestOrNotification j.id j.m (if j.hasE then some () else none) j.r cfg.allowPush has =
+      (if keepMember cfg j then .keep else .drop) := by
+  rw [filter_matches, hno]
+  unfold keepMember
+  cases h1 : j.isRequestOrNotification <;> cases cfg.allowPush <;> cases j.hasE <;> cases hm : j.m <;> cases hr : j.r <;> simp
+
+/-! ### the translated code run on concrete cases (non-vacuity) -/
+
+/-- a reply with id `1` completes the request pending under `1`; `null` is "no id" and matches nothing;
+a server request goes to the callback path; an unknown id is discarded -/
+example :
+    Funcs.deliverAct false [49] false (fun k => k == [49]) = .complete [49] true false ∧
+    Funcs.deliverAct false [49] true (fun k => k == [49]) = .complete [49] true true ∧
+    Funcs.deliverAct false [110, 117, 108, 108] false (fun k => k == [49]) = .discard ∧
+    Funcs.deliverAct true [49] false (fun k => k == [49]) = .callback ∧
+    Funcs.deliverAct false [50] false (fun k => k == [49]) = .discard := by decide
+
+/-- a notification that failed with −32601 gets no reply, one that failed validation gets `null`;
+a call whose handler returned a plain error gets −32603... unless the error has a code -/
+example :
+    Funcs.responseFor true [] false false false 0 true (-32601) = none ∧
+    Funcs.responseFor true [] true false true 0 true (-32600) = some ⟨[110, 117, 108, 108], true, .asIs⟩ ∧
+    Funcs.responseFor false [55] false false false 0 true (-32099) = some ⟨[55], false, .coded (-32603)⟩ ∧
+    Funcs.responseFor false [55] false false false 0 true (-32098) = some ⟨[55], false, .coded (-32098)⟩ ∧
+    Funcs.responseFor false [55] false false true 3 false 7 = some ⟨[55], false, .stripped⟩ ∧
+    Funcs.responseFor false [55] false true false 0 true (-32099) = some ⟨[55], false, .result⟩ := by decide
+
+/-- a call that happens to carry the id of a pending callback is kept; the reply to it is delivered;
+an unmatched reply is dropped with push enabled and kept without -/
+example :
+    Funcs.filterAct true [49] [109] none [] true (fun k => k == [49]) = .keep ∧
+    Funcs.filterAct false [49] [] none [53] true (fun k => k == [49]) = .deliver [49] true ∧
+    Funcs.filterAct false [50] [] none [53] true (fun k => k == [49]) = .drop ∧
+    Funcs.filterAct false [50] [] none [53] false (fun k => k == [49]) = .keep := by decide
+
 end Jrpc.Tie.Decide
